@@ -173,7 +173,7 @@ func c17One(r *core.Run, opts map[string]string, viaParser bool, variant string)
 		for _, x := range []net.Addr{ipa, a2} {
 			if y, ok := x.(*net.IPAddr); ok && y != nil {
 				for i := range y.IP {
-					y.IP[i] ^= 0xA5
+					y.IP[i] = 0xA5
 				}
 				y.Zone = "scribbled"
 			}
@@ -228,7 +228,7 @@ func c17One(r *core.Run, opts map[string]string, viaParser bool, variant string)
 			if rx, err := c17Addr(opts, viaParser); err == nil && rx != nil { // (on its own value: an accessor may legitimately expose its receiver's storage)
 				gx := rx.GetOption(ks)
 				for i := range gx {
-					gx[i] ^= 0xA5
+					gx[i] = 0xA5
 				}
 			}
 			if rb, err := c17Addr(opts, viaParser); err == nil && rb != nil {
